@@ -7,7 +7,7 @@ from .C09 import canon, hx
 
 RULE = ("db ops on (a) single-fault corruptions of grammar-generated valid files - per field: empty, below / above its range, non-numeric, unknown keyword, quirk illegal "
         "for the version; per line: unknown parameter, malformed / unknown section header, sig / sys without their label - where the generator knows the faulty line and "
-        "demands 'ParsingError at exactly that line'; (b) ALL sequences of up to 4 line kinds over 11 kinds (exhaustive); (c) unreadable paths (missing, directory, bytes that are "
+        "demands 'ParsingError at exactly that line'; (b) ALL sequences of up to 4 line kinds over 11 kinds (exhaustive); (c) unreadable paths (missing, directory, a path through a regular file, a symlink loop, an over-long name, bytes that are "
         "not UTF-8) -> DatabaseError; (d) non-ASCII and control characters -> DatabaseError or success, never another exception; (e) corrupted signature texts given to the "
         "signature parsers directly (what impersonate_* does with raw_signature) -> FieldError. Non-trivial = the load is rejected.")
 ASSUMPTIONS = ["texts compared with the model are ASCII; non-ASCII texts are judged by the exception-category oracle only"]
@@ -46,7 +46,7 @@ def run(ctx):
     ctx.correspond(ops, nontrivial=nt, label="line-kind-sequences", canon=canon, tagger=tag)
     ctx.notes["exhaustive_subdomains"] = ["all sequences of <= %d line kinds over %d kinds" % (3 if ctx.quick() else 4, len(dbgen.LINE_KINDS))]
     # (c) unreadable
-    ops = ["db\t!", "db\t!d", "db\txff", "db\tx5b6d74755d0a6c6162656c203d20ff0a", "db\tx" + ("[mtu]\nlabel = a\nsig = 1500\n".encode() + b"\xc3\x28").hex(),
+    ops = ["db\t!", "db\t!d", "db\t!f", "db\t!l", "db\t!n", "db\txff", "db\tx5b6d74755d0a6c6162656c203d20ff0a", "db\tx" + ("[mtu]\nlabel = a\nsig = 1500\n".encode() + b"\xc3\x28").hex(),
            "db\tx" + b"\xfe\xff\x00[".hex(), "db\tx80"]
     res = ctx.correspond(ops, nontrivial=nt, label="unreadable", canon=canon, tagger=tag)
     for line, a, b in res:
